@@ -22,6 +22,7 @@ structure Sess where
   physSum : Bool := false
   sumLine : Bool := false
   smaybe : List Spec.Key := []
+  bulk : Option Bulk := none
 
 def fmtSet (l : List Spec.Key) : String := fmtList (sortNat (l.map HT.encKey))
 
@@ -55,7 +56,7 @@ def rmout (noout : Bool) (st : Stat) (out : Option Nat) : String :=
   | some v => if st == .ok && !noout then s!" rmout={v}" else ""
   | none => ""
 
-def step (s : Sess) (c : Cmd) : Sess × String × String :=
+def stepModel (s : Sess) (c : Cmd) : Sess × String × String :=
   let m := s.mem.begin c.sched
   let isNew := c.op == "new" || c.op == "new_default"
   let sparse := if isNew then c.str "obs" == some "sparse" else s.sparse
@@ -139,5 +140,13 @@ def step (s : Sess) (c : Cmd) : Sess × String × String :=
     | "observe" => lines { s with mem := m } "st=-" "st=-"
     | _ => lines { s with mem := m } "st=- badop" "st=- badop"
   | _, _ => lines { s with mem := m } "st=- nosession" "st=- nosession"
+
+def step (s : Sess) (c : Cmd) : Sess × String × String :=
+  let bulk := if c.op == "new" || c.op == "new_default" then (if c.str "model" == some "off" then some {} else none) else s.bulk
+  match bulk with
+  | some b =>
+    let (b', body) := bulkStep true b c
+    ({ bulk := if c.op == "destroy" then none else some b' }, if body == "?" then "S ?" else s!"S {body}", "M ?")
+  | none => stepModel { s with bulk := none } c
 
 end CC.Driver.HashSetD
